@@ -179,13 +179,9 @@ func oracle(r *rec, w *world, lines []string, script []string) string {
 				parts := strings.SplitN(w.panics[0], ": ", 2)
 				api, msg = parts[0], parts[1]
 			}
-			late := len(w.lateOps) > 0
 			w.mu.Unlock()
 			if strings.Contains(msg, "WaitGroup") {
 				what = "waitgroup-panic"
-			}
-			if api == "Run" && late && what == "waitgroup-panic" {
-				t = "worker-added-after-run-snapshot"
 			}
 			fail("crash", fmt.Sprintf("%s panicked: %s", api, msg), map[string]string{"api": api, "what": what, "trigger": t})
 		}
